@@ -4,4 +4,5 @@ from . import c05k
 
 def generate(rng, tier, ctx):
     # (c05k yields (line, tag) or (line, tag, specified result))
-    return [c for c in c05k.generate(rng, tier, ctx) if c[0].startswith('k_run ct.') or c[0].startswith('k_run ct32.')]
+    # (specified results, where c05k attaches them, belong to C05; here only IR vs real function)
+    return [(c[0], c[1]) for c in c05k.generate(rng, tier, ctx) if c[0].startswith('k_run ct.') or c[0].startswith('k_run ct32.')]
